@@ -159,4 +159,4 @@ def run(chk, tier):
     chk.inst("must-not-impl-drop-blanket", "no_drop::__MustNotImplDrop", ok,
              detail="__MustNotImplDrop must be implemented exactly for all T: Drop (so that a no_drop type with a Drop "
                     "impl is a coherence conflict)")
-    witness.report(chk, "C15", rule="rejection-witness", floor=15, tier=tier)
+    witness.report(chk, "C15", rule="rejection-witness", floor=18, tier=tier)
